@@ -376,7 +376,7 @@ BASE_TRUSTED = [
 
 
 def standard_check(ctx, *, targets, pinned, binname, gen=None, classify=None, search=None,
-                   extra_trusted=(), assumptions=(), harness_extra=()):
+                   extra_trusted=(), assumptions=(), harness_extra=(), post_harness=None):
     """The common shape of a check; property modules supply the specifics.
     classify(case_descr, kind) -> set of known-finding class strings for a failing case."""
     ctx.trusted = BASE_TRUSTED + list(extra_trusted)
@@ -417,6 +417,12 @@ def standard_check(ctx, *, targets, pinned, binname, gen=None, classify=None, se
         violation(ctx, "harness run failed (crash or abort of the implementation under the harness)",
                   {"stage": "harness-run", "log_tail": out[-2500:]}, found_input=False)
         return finish(ctx)
+    if post_harness:
+        # property-specific extra cases (e.g. observed on the real CLI binary), appended as further shards
+        try:
+            post_harness(ctx, outdir)
+        except Exception as e:  # noqa
+            violation(ctx, "end-to-end stage failed: %r" % (e,), {"stage": "post-harness", "error": repr(e)}, found_input=False)
     meta = json.load(open(os.path.join(outdir, "meta.json")))
     for k in ("evaluations", "distinct_nontrivial", "rule", "samples", "distribution"):
         if k in meta:
@@ -486,3 +492,32 @@ def generic_replay(ctx, path):
     ctx.tier = data.get("tier", ctx.tier)
     mod = importlib.import_module("checks." + ctx.pid.lower())
     return mod.run(ctx)
+
+
+def append_shard(outdir, imports, case_type, agree_fn, holds_fn, terms, descrs):
+    """adds one more cases_k.v (and its descriptions) to a harness output directory"""
+    sj = os.path.join(outdir, "shards.json")
+    meta = json.load(open(sj))
+    descr = json.load(open(os.path.join(outdir, "cases.json")))
+    k = meta["shards"]
+    # pad the description list so that global ids (k * shard_size + i) stay valid
+    while len(descr) < k * meta["shard_size"]:
+        descr.append({"kind": "padding"})
+    if len(terms) > meta["shard_size"]:
+        raise RuntimeError("append_shard: too many cases for one shard")
+    v = [imports, "Definition cases : list (%s) := [" % case_type, ";\n".join("  " + t for t in terms), "].",
+         "Definition corr_fail := Eval vm_compute in (failing %s cases)." % agree_fn,
+         "Definition prop_fail := Eval vm_compute in (failing %s cases)." % holds_fn,
+         "Print corr_fail.", "Print prop_fail."]
+    open(os.path.join(outdir, "cases_%d.v" % k), "w").write("\n".join(v) + "\n")
+    descr += descrs
+    meta["shards"] = k + 1
+    meta["n"] = len(descr)
+    json.dump(meta, open(sj, "w"))
+    json.dump(descr, open(os.path.join(outdir, "cases.json"), "w"))
+
+
+def coq_str(x):
+    if all(" " <= c <= "~" for c in x) and len(x) < 2000:
+        return '(s "%s")' % x.replace('"', '""')
+    return "[" + ";".join(str(ord(c)) for c in x) + "]%N"
